@@ -54,7 +54,7 @@ FIRST_ELEM_ASSUMED = {
     ("root_development", "np.argwhere(prof.dzsum >= ZiTmp).flatten()[0]"): ("A-8", "profile deeper than Zmax"),
     ("_depth_with_restrictive_layers", "l_idx[0]"): ("A-12", "layers are numbered 1..nLayer and each has a compartment"),
     ("groundwater_inflow", "np.argwhere(zMid >= z_gw).flatten()[0]"): ("A-13", "wt_in_soil is True only if a compartment centre lies below the table"),
-    ("read_model_initial_conditions", "np.where(comp_mid >= InitCond.z_gw)[0][0]"): ("A-13", "same test established wt_in_soil"),
+    ("start_under_water_table", "np.where(comp_mid >= z_gw)[0][0]"): ("A-13", "reached only with wt_in_soil True: the same test established it"),
     ("Soil.add_layer", "self.profile[self.profile.Layer == new_layer - 1].dzsum.values[-1]"): ("A-12", "the previous layer has a compartment"),
     ("reset_initial_conditions", "gdd_cum[-1]"): ("A-14", "weather covers the planting date of the season"),
     ("read_model_parameters", "clock_struct.planting_dates[0]"): ("A-15", "reached only after plant_years[0] succeeded; one planting date per plant year"),
